@@ -332,6 +332,11 @@ theorem step_inv {cfg : Cfg} (hg : cfg.Good) {s : State} (h : Inv s) (st : Step)
     by_cases hj : j = sid
     · subst hj; simpa [pendO] using flushStepS_inv (h j)
     · simpa [pendO, upd_other _ _ hj] using h j
+  | ioCloseCb sid =>
+    simp only [step]
+    split
+    · intro j; simpa [pendO] using h j
+    · exact h
   | fence n =>
     unfold step
     intro j
@@ -511,6 +516,11 @@ theorem step_tomb {cfg : Cfg} {s : State} (h : Tomb s) (st : Step) : Tomb (step 
       unfold flushStepS TombS at *
       (repeat' split) <;> simp_all
     · simpa [upd_other _ _ hjs] using hj
+  | ioCloseCb sid =>
+    simp only [step]
+    split
+    · intro hg j; exact h hg j
+    · exact h
   | fence n =>
     unfold step
     intro hg j
@@ -647,6 +657,8 @@ theorem peerClosed_drained {cfg : Cfg} (hg : cfg.Good) {s : State} (h : Inv s) (
   | flushStep sid' =>
     simp only [step] at hev
     cases hr : (flushStepS s.shuttingDown (s.sess sid')).2 <;> simp [hr, evFlush] at hev
+  | ioCloseCb sid' =>
+    simp only [step] at hev; split at hev <;> simp at hev
   | fence n => simp [step] at hev
 
 /-! ## overflow (T5) and the tombstone answer (T7) -/
@@ -656,7 +668,7 @@ theorem drain_overflow {x : Sess} {b b' : Buf} {len : Nat} (ho : b.overflow = tr
   unfold drain at hb'
   split at hb'
   · simp at hb'; rw [← hb']; exact ho
-  · simp [ho, hx] at hb'; rw [← hb']; exact ho
+  · simp [ho, hx] at hb'; rw [← hb']
 
 theorem overflow_sticky (cfg : Cfg) (s : State) (st : Step) (sid : Nat) (b b' : Buf)
     (hb : (s.sess sid).buf = some b) (ho : b.overflow = true) (hb' : ((step cfg s st).1.sess sid).buf = some b') :
@@ -734,6 +746,9 @@ theorem overflow_sticky (cfg : Cfg) (s : State) (st : Step) (sid : Nat) (b b' : 
       (repeat' split at hb') <;> simp_all
       subst hb'; rfl
     · simp only [upd_other _ _ hj] at hb'; simp_all
+  | ioCloseCb sid' =>
+    simp only [step] at hb'
+    split at hb' <;> simp_all
   | fence n =>
     simp only [step] at hb'
     unfold wake at hb'
